@@ -17,6 +17,9 @@ pub const FAULT_KINDS: &[&str] = &[
     "extra-paren",
 ];
 
+pub const CMD_FAULT_KINDS: &[&str] = &["cmd-error", "cmd-error-exit", "cmd-exit"];
+const CMD_FAULT_MESSAGE: &str = "injected-command-fault-message-with-(parens)";
+
 const FAULT_MESSAGE: &str = "injected-fault-message-with-(parens)-and-some-more-text-to-be-long-enough";
 
 /// executed in a child process: runs one job with the fault (if any) armed and prints one JSON line
@@ -33,13 +36,27 @@ pub fn child_main(spec: &str) {
         c.init_reads_inputs = false;
         c
     };
-    let gs = gen_system(&mut rng, &mut ctx, &cfg, "");
-    let sys = gs.sys;
+    let mut sys = gen_system(&mut rng, &mut ctx, &cfg, "").sys;
+    let mut corpus_name = String::new();
+    if job == "bmc-corpus" {
+        // a shipped design: conversations with long runs (tens of kB) of commands that bear no response
+        let files: Vec<std::path::PathBuf> = super::c11::corpus_files().into_iter().filter(|p| std::fs::metadata(p).map(|m| m.len() > 8_000 && m.len() < 60_000).unwrap_or(false)).collect();
+        let path = &files[(seed as usize) % files.len().max(1)];
+        ctx = Context::default();
+        match std::fs::read_to_string(path).ok().and_then(|t| patronus::btor2::parse_str(&mut ctx, &t, Some("corpus"))) {
+            Some(s) => sys = s,
+            None => {
+                println!("C15RESULT {}", json!({"verdict": "error", "text": "corpus file not readable", "system": ""}));
+                return;
+            }
+        }
+        corpus_name = util::short_path(&path.to_string_lossy());
+    }
     let workdir = std::path::PathBuf::from(std::env::var("C15_WORKDIR").unwrap_or_else(|_| "/tmp".into()));
-    let mcfg = McCfg { persona, individually: job == "bmc-ind", check_constraints: false, k_max: 3, solver_seed: 7, diversify: 0, core_mode: "minimal" };
+    let mcfg = McCfg { persona, individually: job == "bmc-ind", check_constraints: false, k_max: if job == "bmc-corpus" { 2 } else { 3 }, solver_seed: 7, diversify: 0, core_mode: "minimal" };
     let tag = format!("c15child_{}", std::process::id());
     let verdict = match job {
-        "bmc" | "bmc-ind" => run_bmc_no_server(&mut ctx, &sys, &mcfg, &workdir, &tag),
+        "bmc" | "bmc-ind" | "bmc-corpus" => run_bmc_no_server(&mut ctx, &sys, &mcfg, &workdir, &tag),
         "pdr" => run_pdr_no_server(&mut ctx, &sys, &mcfg, &workdir, &tag),
         _ => direct_session(&mut ctx, persona),
     };
@@ -50,7 +67,8 @@ pub fn child_main(spec: &str) {
         Verdict::Err(e) => ("error", e.clone()),
         Verdict::Panic(p) => ("panic", format!("{}|{}", p.loc(), p.msg)),
     };
-    println!("C15RESULT {}", json!({"verdict": name, "text": text, "system": describe(&ctx, &sys)}));
+    let system = if corpus_name.is_empty() { describe(&ctx, &sys) } else { format!("shipped design {corpus_name}") };
+    println!("C15RESULT {}", json!({"verdict": name, "text": text, "system": system}));
 }
 
 fn run_bmc_no_server(ctx: &mut Context, sys: &patronus::system::TransitionSystem, cfg: &McCfg, workdir: &std::path::Path, tag: &str) -> Verdict {
@@ -137,6 +155,195 @@ fn direct_session(ctx: &mut Context, persona: &str) -> Verdict {
     }
 }
 
+/// a SolverContext (the public trait) around the real text-protocol context that answers `Unknown` at the n-th
+/// satisfiability query - what an implementation with a resource limit does. The query is still forwarded so that
+/// the solver's state stays in step.
+struct UnknownInjector<C: SolverContext> {
+    inner: C,
+    checks: u64,
+    at: Option<u64>,
+    core_requests: u64,
+}
+
+impl<C: SolverContext> SolverMetaData for UnknownInjector<C> {
+    fn name(&self) -> &str {
+        self.inner.name()
+    }
+    fn supports_check_assuming(&self) -> bool {
+        self.inner.supports_check_assuming()
+    }
+    fn supports_uf(&self) -> bool {
+        self.inner.supports_uf()
+    }
+    fn supports_const_array(&self) -> bool {
+        self.inner.supports_const_array()
+    }
+    fn supports_get_unsat_assumptions(&self) -> bool {
+        self.inner.supports_get_unsat_assumptions()
+    }
+}
+
+impl<C: SolverContext> SolverContext for UnknownInjector<C> {
+    fn restart(&mut self) -> patronus::smt::Result<()> {
+        self.inner.restart()
+    }
+    fn set_logic(&mut self, option: patronus::smt::Logic) -> patronus::smt::Result<()> {
+        self.inner.set_logic(option)
+    }
+    fn assert(&mut self, ctx: &Context, e: patronus::expr::ExprRef) -> patronus::smt::Result<()> {
+        self.inner.assert(ctx, e)
+    }
+    fn declare_const(&mut self, ctx: &Context, symbol: patronus::expr::ExprRef) -> patronus::smt::Result<()> {
+        self.inner.declare_const(ctx, symbol)
+    }
+    fn define_const(&mut self, ctx: &Context, symbol: patronus::expr::ExprRef, expr: patronus::expr::ExprRef) -> patronus::smt::Result<()> {
+        self.inner.define_const(ctx, symbol, expr)
+    }
+    fn check_sat_assuming(&mut self, ctx: &Context, props: impl IntoIterator<Item = patronus::expr::ExprRef>) -> patronus::smt::Result<CheckSatResponse> {
+        let n = self.checks;
+        self.checks += 1;
+        let r = self.inner.check_sat_assuming(ctx, props)?;
+        Ok(if Some(n) == self.at { CheckSatResponse::Unknown } else { r })
+    }
+    fn check_sat(&mut self) -> patronus::smt::Result<CheckSatResponse> {
+        let n = self.checks;
+        self.checks += 1;
+        let r = self.inner.check_sat()?;
+        Ok(if Some(n) == self.at { CheckSatResponse::Unknown } else { r })
+    }
+    fn push(&mut self) -> patronus::smt::Result<()> {
+        self.inner.push()
+    }
+    fn pop(&mut self) -> patronus::smt::Result<()> {
+        self.inner.pop()
+    }
+    fn get_value(&mut self, ctx: &mut Context, e: patronus::expr::ExprRef) -> patronus::smt::Result<patronus::expr::ExprRef> {
+        self.inner.get_value(ctx, e)
+    }
+    fn get_unsat_assumptions(&mut self, ctx: &mut Context) -> patronus::smt::Result<Vec<patronus::expr::ExprRef>> {
+        self.core_requests += 1;
+        self.inner.get_unsat_assumptions(ctx)
+    }
+}
+
+impl C15 {
+    /// one in-process run of a model-checking job through the injecting context: (verdict, queries, core requests,
+    /// frame-trace snapshots handed over by the PDR observer)
+    fn run_with_unknown(job: &str, persona: &str, ctx: &mut Context, sys: &patronus::system::TransitionSystem, at: Option<u64>) -> (Verdict, u64, u64, Vec<super::c10::Snapshot>) {
+        use std::cell::RefCell;
+        use std::rc::Rc;
+        let solver = solver_by_name(persona);
+        let mut counts = (0u64, 0u64);
+        let snaps: Rc<RefCell<Vec<super::c10::Snapshot>>> = Rc::new(RefCell::new(vec![]));
+        let s2 = snaps.clone();
+        patronus::verif::set_pdr_observer(Some(Box::new(move |_ctx, finite, infinite, success| {
+            let mut v = s2.borrow_mut();
+            if v.len() < 2000 {
+                v.push(super::c10::Snapshot { finite: finite.to_vec(), infinite: infinite.to_vec(), success });
+            }
+        })));
+        let v = match util::catch(|| {
+            let inner = solver.start(None).map_err(|e| format!("{e}"))?;
+            let mut smt_ctx = UnknownInjector { inner, checks: 0, at, core_requests: 0 };
+            let r = match job {
+                "pdr" => patronus::mc::pdr(ctx, &mut smt_ctx, sys, false),
+                "pdr-nogen" => patronus::mc::pdr(ctx, &mut smt_ctx, sys, true),
+                "bmc-ind" => patronus::mc::bmc(ctx, &mut smt_ctx, sys, false, true, 3),
+                _ => patronus::mc::bmc(ctx, &mut smt_ctx, sys, false, false, 3),
+            }
+            .map_err(|e| format!("{e}"));
+            counts = (smt_ctx.checks, smt_ctx.core_requests);
+            r
+        }) {
+            Err(p) => Verdict::Panic(p),
+            Ok(Err(e)) => Verdict::Err(e),
+            Ok(Ok(patronus::mc::ModelCheckResult::Success)) => Verdict::Success,
+            Ok(Ok(patronus::mc::ModelCheckResult::Unknown)) => Verdict::Unknown,
+            Ok(Ok(patronus::mc::ModelCheckResult::Fail(w))) => Verdict::Fail(w),
+        };
+        patronus::verif::set_pdr_observer(None);
+        let snaps = snaps.borrow().clone();
+        (v, counts.0, counts.1, snaps)
+    }
+
+    /// `Unknown` as the answer to every single satisfiability query of a job, one at a time
+    fn unknown_case(&self, sh: &mut Shard, rng: &mut Rng, n: u64) {
+        ensure_z3_server(&sh.workdir.clone());
+        unset_env("REFSOLVER_LOG");
+        unset_env("REFSOLVER_FAULT");
+        let job = ["pdr", "bmc", "pdr", "bmc-ind", "pdr-nogen", "pdr"][(n % 6) as usize];
+        let persona = ["z3", "bitwuzla", "cvc5", "yices-smt2"][((n / 6 + n) % 4) as usize];
+        let job = if persona == "yices-smt2" && job == "pdr" { "pdr-nogen" } else { job };
+        let is_pdr = job.starts_with("pdr");
+        let mut chosen = None;
+        for _ in 0..30 {
+            let mut ctx = Context::default();
+            let mut cfg = mc_sys_cfg(rng);
+            cfg.arrays = false;
+            cfg.init_reads_inputs = false;
+            let sys = gen_system(rng, &mut ctx, &cfg, "").sys;
+            let (v, checks, cores, _) = Self::run_with_unknown(job, persona, &mut ctx, &sys, None);
+            let definite = matches!(v, Verdict::Success | Verdict::Fail(_));
+            // failing systems are the telling ones for BMC (an undecided query must not count as "no counterexample")
+            let wanted = if is_pdr { true } else { matches!(v, Verdict::Fail(_)) || rng.chance(1, 3) };
+            if definite && wanted && checks >= 2 && checks <= sh.tier.pick(120, 400) && (job != "pdr" || cores >= 1) {
+                let base_len = if let Verdict::Fail(w) = &v { w.inputs.len() } else { 0 };
+                chosen = Some((ctx, sys, v.name(), checks, base_len));
+                break;
+            }
+        }
+        let Some((mut ctx, sys, base, checks, base_len)) = chosen else {
+            sh.count("unknown_jobs_without_suitable_conversation", 1);
+            return;
+        };
+        sh.count("unknown_jobs", 1);
+        sh.hist("unknown_jobs_by_kind", &format!("{job}|{persona}"));
+        // explicit state space for the frame invariants of PDR runs that carry on after an Unknown
+        let mut explicit = None;
+        if is_pdr {
+            if let Ok(mut reach) = reach_for(&ctx, &sys, 400, true) {
+                if reach.fixpoint {
+                    if let Ok(ex) = super::c10::explicit(&ctx, &sys, &mut reach) {
+                        explicit = Some((reach, ex));
+                    }
+                }
+            }
+        }
+        for at in 0..checks {
+            let (v, _, _, snaps) = Self::run_with_unknown(job, persona, &mut ctx, &sys, Some(at));
+            sh.count("fault_runs", 1);
+            sh.count("unknown_answer_runs", 1);
+            sh.hist("outcomes", &format!("unknown-from-context -> {}", v.name()));
+            sh.distinct(util::mix(&[util::hash_str(&describe(&ctx, &sys)), util::hash_str(job), util::hash_str(persona), at]));
+            let ctxt = format!("{job} under profile {persona} ({checks} satisfiability queries, fault-free verdict {base}), the solver context answers Unknown to query number {at}");
+            match &v {
+                Verdict::Success | Verdict::Fail(_) if v.name() != base => {
+                    sh.violation(format!("C15|wrong-verdict-after-unknown|{job}"), format!("{ctxt}: the call reports `{}` - the undecided query was taken for an answer\n{}", v.name(), describe(&ctx, &sys)), json!({}));
+                    return;
+                }
+                Verdict::Fail(w) if !is_pdr && w.inputs.len() != base_len => {
+                    // BMC checks step by step: the step of the first failure is a function of the system
+                    sh.violation(format!("C15|wrong-verdict-after-unknown|{job}|later-failure"), format!("{ctxt}: the call reports a failure after {} step(s) instead of {} - the undecided query was taken for `no counterexample in this step`\n{}", w.inputs.len(), base_len, describe(&ctx, &sys)), json!({}));
+                    return;
+                }
+                Verdict::Success | Verdict::Fail(_) => sh.count("unknown_answer_runs_with_the_fault_free_verdict", 1),
+                Verdict::Panic(p) => {
+                    sh.violation(format!("C15|panic|unknown-from-context|{}", p.loc()), format!("{ctxt}: panic at {}: {}\n{}", p.loc(), util::trunc(&p.msg, 300), describe(&ctx, &sys)), json!({}));
+                    return;
+                }
+                _ => {}
+            }
+            // whatever PDR did after the undecided query must still be sound
+            if let Some((reach, ex)) = explicit.as_mut() {
+                if let Err((kind, text)) = super::c10::C10.check_snapshots(sh, &ctx, &sys, reach, ex, &snaps) {
+                    sh.violation(format!("C15|unsound-after-unknown|{kind}"), format!("{ctxt}: {text}\n{}", describe(&ctx, &sys)), json!({}));
+                    return;
+                }
+            }
+        }
+    }
+}
+
 struct ChildOutcome {
     verdict: String,
     text: String,
@@ -161,9 +368,15 @@ fn children_of(pid: u32) -> Vec<u32> {
 fn run_child(sh: &Shard, spec: &str, fault: Option<(&str, u64)>, counter: &std::path::Path, budget: Duration) -> ChildOutcome {
     let exe = std::env::current_exe().unwrap();
     let _ = std::fs::write(counter, "0");
+    let _ = std::fs::remove_file(format!("{}.seq", counter.display()));
     let mut cmd = std::process::Command::new(exe);
     cmd.arg("C15").arg("--child").arg(spec).env("C15_WORKDIR", &sh.workdir).env("REFSOLVER_COUNTER", counter).env_remove("REFSOLVER_LOG").stdin(std::process::Stdio::null()).stdout(std::process::Stdio::piped()).stderr(std::process::Stdio::null());
+    cmd.env_remove("REFSOLVER_CMD_FAULT");
     match fault {
+        Some((k, n)) if k.starts_with("cmd-") => {
+            cmd.env_remove("REFSOLVER_FAULT");
+            cmd.env("REFSOLVER_CMD_FAULT", format!("{k}@{n}"));
+        }
         Some((k, n)) => {
             cmd.env("REFSOLVER_FAULT", format!("{k}@{n}"));
         }
@@ -234,13 +447,13 @@ impl Check for C15 {
         "fault_enumeration"
     }
     fn work(&self, tier: Tier) -> Vec<WorkItem> {
-        vec![WorkItem { mode: "job", count: std::env::var("VERIF_N").ok().and_then(|s| s.parse().ok()).unwrap_or(tier.pick(12, 120)) }]
+        vec![WorkItem { mode: "job", count: std::env::var("VERIF_N").ok().and_then(|s| s.parse().ok()).unwrap_or(tier.pick(14, 126)) }, WorkItem { mode: "unknown", count: tier.pick(24, 240) }]
     }
     fn evaluations_counter(&self) -> &'static str {
         "fault_runs"
     }
     fn rule(&self) -> String {
-        format!("jobs = BMC (k=3; all bad states at once, or one at a time), PDR (jobs on profiles with unsat cores are chosen such that the run really asks for a core) and a direct SolverContext session (declare/assert/check-sat/get-value/push/pop/check-sat-assuming/get-unsat-assumptions/restart) on generated systems, each under one of the four solver profiles; a fault-free run counts the N response-bearing points of the conversation (check-sat, check-sat-assuming, get-value, get-unsat-assumptions; counted across restart() through a shared counter file); then for EVERY position n < N and EVERY fault kind of {:?} the job is re-run in a child process with the fault armed in the reference solver. Oracle: the call must return an error (or Unknown) - never Success/Fail, never a panic; for error replies the returned text must contain the injected message as one contiguous piece; the child must return within 1000 x fault-free time (clamped to 12..60 s), otherwise /proc is inspected: solver process gone or cpu burning = hang (violation), solver alive and idle = inconclusive. distinct_nontrivial = distinct (job, position, kind) triples executed.", FAULT_KINDS)
+        format!("jobs = BMC (k=3; all bad states at once, or one at a time), PDR (jobs on profiles with unsat cores are chosen such that the run really asks for a core) and a direct SolverContext session (declare/assert/check-sat/get-value/push/pop/check-sat-assuming/get-unsat-assumptions/restart) on generated systems, each under one of the four solver profiles; a fault-free run counts the N response-bearing points of the conversation (check-sat, check-sat-assuming, get-value, get-unsat-assumptions; counted across restart() through a shared counter file); then for EVERY position n < N and EVERY fault kind of {:?} the job is re-run in a child process with the fault armed in the reference solver. Oracle: the call must return an error (or Unknown) - never Success/Fail, never a panic; for error replies the returned text must contain the injected message as one contiguous piece; the child must return within 1000 x fault-free time (clamped to 12..60 s), otherwise /proc is inspected: solver process gone or cpu burning = hang (violation), solver alive and idle = inconclusive. Commands that bear no response (declare/define/assert/push/pop/set-*) get three more fault kinds {:?} at the first, the last-before-a-response and 3 (thorough 10) random positions, plus one position after the last response: before the last response the call must not report Success/Fail and must carry the message the solver printed; after it only no-hang/no-panic is demanded. Mode unknown: BMC and PDR jobs run in-process through a SolverContext (an implementation of the public trait around the real text-protocol context) that answers Unknown to exactly one satisfiability query, for EVERY query of the conversation in turn - the text protocol itself turns the word `unknown` into an error before the engines see it, so this is the only way their Unknown handling is reached. An engine may carry on after an undecided query only soundly: no panic, a definite verdict must be the fault-free one (BMC jobs are mostly failing systems, where taking `unknown` for `unsat` loses the counterexample), and the frame traces of PDR (hook H3) must still satisfy the invariants of C10 on the explicit state space. One job in seven is BMC (k=2) on a shipped design of 8-60 kB (long runs of answerless commands). distinct_nontrivial = distinct (job, position, kind) triples executed.", FAULT_KINDS, CMD_FAULT_KINDS)
     }
     fn assumptions(&self) -> Vec<String> {
         vec!["every injected fault hits a response the job really waits for (positions are enumerated from a fault-free run of the same deterministic job)".into()]
@@ -262,9 +475,14 @@ impl Check for C15 {
     }
     fn run_case(&self, sh: &mut Shard, case: &CaseId) {
         let mut rng = Rng::new(sh.case_seed());
+        if case.mode == "unknown" {
+            self.unknown_case(sh, &mut rng, case.n);
+            return;
+        }
         ensure_z3_server(&sh.workdir.clone());
-        let job = ["bmc", "pdr", "direct", "pdr", "bmc-ind", "pdr"][(case.n % 6) as usize];
-        let persona = PERSONAS[((case.n / 6 + case.n) % 4) as usize];
+        let job = ["bmc", "pdr", "direct", "pdr", "bmc-ind", "pdr", "bmc-corpus"][(case.n % 7) as usize];
+        let persona = PERSONAS[((case.n / 7 + case.n) % 4) as usize];
+        let seq_file = std::path::PathBuf::from(format!("{}.seq", counter_path(sh).display()));
         let kinds_file = std::path::PathBuf::from(format!("{}.kinds", counter_path(sh).display()));
         let counter = counter_path(sh);
         // find a job with a manageable conversation
@@ -275,16 +493,17 @@ impl Check for C15 {
             let base = run_child(sh, &spec, None, &counter, Duration::from_secs(60));
             let n: u64 = std::fs::read_to_string(&counter).ok().and_then(|s| s.trim().parse().ok()).unwrap_or(0);
             let kinds: Vec<String> = std::fs::read_to_string(&kinds_file).unwrap_or_default().lines().map(|l| l.to_string()).collect();
+            let seq = std::fs::read_to_string(&seq_file).unwrap_or_default();
             // a PDR job is only interesting for this check if it generalises through unsat cores where the profile has them,
             // an individual-mode BMC job if several bad states are checked after one another
             let wants_core = job == "pdr" && persona != "yices-smt2";
             let has_core = kinds.iter().any(|k| k == "get-unsat-assumptions");
             if base.hang.is_none() && (base.verdict == "success" || base.verdict == "fail") && n >= 2 && n <= sh.tier.pick(40, 80) && kinds.len() as u64 == n && (!wants_core || has_core) {
-                chosen = Some((spec, base, n, kinds));
+                chosen = Some((spec, base, n, kinds, seq));
                 break;
             }
         }
-        let Some((spec, base, npoints, kinds)) = chosen else {
+        let Some((spec, base, npoints, kinds, seq)) = chosen else {
             sh.count("jobs_without_suitable_conversation", 1);
             return;
         };
@@ -336,6 +555,62 @@ impl Check for C15 {
                 }
             }
         }
+        // faults at commands that bear no response (declarations, definitions, assertions, push/pop): the solver
+        // reports an error and carries on (z3 does), reports an error and dies, or just dies
+        let ncmds = seq.bytes().filter(|b| *b == b'C').count() as u64;
+        let before_last_response = seq.rfind('R').map(|p| seq[..p].bytes().filter(|b| *b == b'C').count() as u64).unwrap_or(0);
+        sh.count("answerless_commands_in_fault_free_runs", ncmds);
+        let mut positions: Vec<u64> = vec![];
+        if before_last_response > 0 {
+            positions.push(0);
+            positions.push(before_last_response - 1);
+            for _ in 0..sh.tier.pick(3, 10) {
+                positions.push(rng.below(before_last_response));
+            }
+        }
+        if ncmds > before_last_response {
+            positions.push(ncmds - 1);
+        }
+        positions.sort();
+        positions.dedup();
+        for m in positions {
+            for kind in CMD_FAULT_KINDS {
+                let o = run_child(sh, &spec, Some((kind, m)), &counter, budget);
+                sh.count("fault_runs", 1);
+                sh.count("command_fault_runs", 1);
+                let decisive = m < before_last_response;
+                sh.hist("fault_runs_by_job_and_point", &format!("{job} @ command{}", if decisive { "" } else { " after the last response" }));
+                sh.distinct(util::mix(&[util::hash_str(&spec), 1_000_000 + m, util::hash_str(kind)]));
+                sh.hist("outcomes", &format!("{kind} -> {}", o.verdict));
+                let ctxt = format!("job `{spec}` ({ncmds} commands without response, {before_last_response} of them before the last response; fault-free verdict {}), fault `{kind}` at such command number {m}", base.verdict);
+                if let Some(reason) = &o.hang {
+                    if reason.starts_with("INCONCLUSIVE") {
+                        sh.inconclusive(format!("{ctxt}: {reason}"));
+                    } else {
+                        sh.violation(format!("C15|hang|{kind}|{job}"), format!("{ctxt}: the call does not return: {reason}\n{}", o.system), json!({"spec": spec, "fault": kind, "at_command": m}));
+                    }
+                    continue;
+                }
+                match o.verdict.as_str() {
+                    "success" | "fail" if decisive => {
+                        sh.violation(format!("C15|verdict-despite-fault|{kind}|{job}"), format!("{ctxt}: the call still reports `{}`\n{}", o.verdict, o.system), json!({"spec": spec, "fault": kind, "at_command": m}));
+                    }
+                    "panic" => {
+                        let loc = o.text.split('|').next().unwrap_or("").to_string();
+                        sh.violation(format!("C15|panic|{kind}|{loc}"), format!("{ctxt}: panic {}\n{}", o.text, o.system), json!({"spec": spec, "fault": kind, "at_command": m}));
+                    }
+                    "crash" => {
+                        sh.violation(format!("C15|crash|{kind}|{job}"), format!("{ctxt}: the process died without a result\n{}", o.system), json!({"spec": spec, "fault": kind, "at_command": m}));
+                    }
+                    "error" if decisive && *kind != "cmd-exit" => {
+                        if !o.text.contains(CMD_FAULT_MESSAGE) {
+                            sh.violation(format!("C15|message-mangled|{kind}"), format!("{ctxt}: the solver's message `{CMD_FAULT_MESSAGE}` does not arrive intact: {:?}", o.text), json!({"spec": spec, "fault": kind, "at_command": m}));
+                        }
+                    }
+                    _ => {}
+                }
+            }
+        }
         if sh.want_sample() {
             sh.sample(json!({"job": spec, "response_points": npoints, "fault_free_verdict": base.verdict, "fault_kinds": FAULT_KINDS.len()}));
         }
@@ -346,6 +621,8 @@ impl Check for C15 {
         for (what, floor) in [("pdr @ get-unsat-assumptions", tier.pick(28, 280)), ("pdr @ check", tier.pick(100, 1000)), ("bmc-ind @ check", tier.pick(28, 280)), ("bmc @ get-value", tier.pick(28, 280)), ("direct @ get-unsat-assumptions", 14)] {
             m.floor(&format!("fault runs at response points of kind `{what}`"), m.h("fault_runs_by_job_and_point", what), floor);
         }
+        m.floor("runs with Unknown returned by the solver context at one query", m.c("unknown_answer_runs"), tier.pick(150, 3000));
+        m.floor("fault runs at commands that bear no response", m.c("command_fault_runs"), tier.pick(60, 1500));
         m.extra.insert("exhaustive_over_positions_and_kinds_per_job".into(), json!(true));
     }
 }
